@@ -211,7 +211,7 @@ Theorem cross_h3 a fs tfs parts m sizes :
           m_trailer := collect (a_trailers a); m_api := expected_api a m sizes |}.
 Proof.
   intros (Hcode & Hallow & Hreason & Hfs & Hfields & He2e & Htfs & Htr) Hb3.
-  unfold h3_exchange. cbn [h3_final h3_status h3_flds]. rewrite atoi_code_text by assumption.
+  unfold h3_exchange, h3_exchange_evs. cbn [h3_final h3_status h3_flds]. rewrite atoi_code_text by assumption.
   destruct (allowed_not_1xx _ Hallow) as [Hn H204]. rewrite Hn. cbn [andb h3_status h3_flds].
   rewrite h3_header_collect; [|apply (tokens_of fs _ Hfs Hfields)|apply (end_to_end_named K_CL _ eq_refl He2e)
                               |apply (end_to_end_named K_TRAILER _ eq_refl He2e)].
